@@ -197,11 +197,15 @@ def decode(cells, zeros=0, trust='parameters'):
     H['param_blocks'] = nblocks; H['processor'] = b[ps + 3]
     ck('param.processor', b[ps + 3] == 84, 'processor byte %s' % b[ps + 3])
     pos = ps + 4
-    groups = {}; params = []; order = []
+    groups = {}; params = []; order = []; sym_checks = []
     end = ps + 512 * nblocks
     terminated = False
     while True:
         if pos >= len(b): raise DecodeError('record chain runs off the file')
+        if not is_c(b[pos]) and pos >= ps + 4 and (order or True):
+            # a payload byte sits where a name length or the end marker must be: well-formed only if it is 0
+            sym_checks.append(('param.terminated', b[pos] != 0, 'the byte at offset %d, where the next record or the end marker (0) must be, is payload' % pos))
+            terminated = True; term_pos = pos; break
         nl = need_c(b[pos], 'name length'); nl = nl - 256 if nl > 127 else nl
         if nl == 0: terminated = True; term_pos = pos; break
         gid = need_c(b[pos + 1], 'group id'); gid = gid - 256 if gid > 127 else gid
@@ -237,7 +241,7 @@ def decode(cells, zeros=0, trust='parameters'):
         pos = offpos + off
     ck('param.terminated', terminated)
     ck('param.within_blocks', term_pos < end, 'records end at %d, declared section end %d' % (term_pos, end))
-    ck('param.padding_zero', all(is_c(x) and x == 0 for x in b[term_pos:end]), 'non-zero byte in the cleared space')
+    ck('param.padding_zero', all((is_c(x) and x == 0) for x in b[term_pos + (1 if sym_checks else 0):end]), 'non-zero byte in the cleared space')
     for p in params:
         ck('record.param_has_group', p['gid'] in groups, 'parameter of unknown group id %d' % p['gid'])
         if p['gid'] in groups: groups[p['gid']]['params'].append(p)
@@ -252,7 +256,7 @@ def decode(cells, zeros=0, trust='parameters'):
             if all(is_c(x) for x in p['name']) and bytes(p['name']).decode('latin1') == pn: return p
         return None
     ds = par('POINT', 'DATA_START')
-    D = {'H': H, 'groups': groups, 'params': params, 'order': order, 'checks': chk, 'byname': byname, 'par': par}
+    D = {'H': H, 'groups': groups, 'params': params, 'order': order, 'checks': chk, 'byname': byname, 'par': par, 'sym_checks': sym_checks}
     data_block = None
     if ds is not None and ds['type'] == 2 and len(ds['values']) == 1 and is_c(ds['values'][0]):
         data_block = ds['values'][0]
